@@ -269,9 +269,24 @@ func c17Body(env *simrt.Env) {
 			}
 			what = fmt.Sprintf("StoreRawDataBlock(%d)", n)
 		case 12:
-			var d string
-			err = sc.SendAllStatus(&d, &ok)
-			what = "SendAllStatus"
+			if simrt.Draw(2) == 0 {
+				var d string
+				err = sc.SendAllStatus(&d, &ok)
+				what = "SendAllStatus"
+			} else {
+				// edge-multi triggering on some channels (fixed-length record modes): its search state is
+				// rewritten by the per-channel goroutines on every block
+				ts := TriggerState{EdgeMulti: true, EdgeRising: true, AutoDelay: 250 * time.Millisecond}
+				ts.EdgeMultiLevel = int32(200 + 300*simrt.Draw(3))
+				ts.EdgeMultiVerifyNMonotone = 1 + simrt.Draw(3)
+				ts.EdgeMultiMakeContaminatedRecords = simrt.Draw(2) == 0
+				ts.EdgeMultiDisableZeroThreshold = simrt.Draw(2) == 0
+				err = sc.ConfigureTriggers(&FullTriggerState{ChannelIndices: all[:1+simrt.Draw(nchan)], TriggerState: ts}, &ok)
+				what = "ConfigureTriggers(edge-multi)"
+				if err == nil {
+					simrt.Hit("edge-multi-enabled")
+				}
+			}
 		case 13:
 			if running && simrt.Draw(3) == 0 {
 				var d string
